@@ -180,6 +180,41 @@ def run(ctx):
         ctx.report("C16-number-alphabet", "negative-denominator/" + r["key"].split("/", 1)[1], "a ratio with a non-positive denominator can "
                    "be built and would be printed as n/-d, which the reader rejects: " + r["msg"], r["where"])
 
+    # ------------------------------------------------------------------ C16-real-literal
+    ctx.rule("C16-real-literal", "every finite real the printer can emit is accepted back: the conversion of a real literal rejects "
+                                 "nothing but unparsable text (and, at most, non-finite values)")
+    ep = fb.find("interpreter::interpreter::Interpreter::eval_primitive")
+    pv = {n: i for i, n in fb.variants("parser::datum::Primitive")}
+    sw = next(iter(mir.discriminant_switches(ep, "Primitive")), None)
+    if not sw:
+        ctx.report("C16-real-literal", "shape", "eval_primitive does not dispatch on Primitive", where_of(ep))
+    else:
+        reg = mir.dominated_region(ep, sw[3].get(pv["Real"], sw[4]))
+        fs = [ep] + [c for c in fb.closures_of(ep)]
+        suspicious = []
+        for g in fs:
+            blocks = reg if g is ep else None
+            for b, t in g.calls(blocks):
+                c = callee(t) or ""
+                d = mir.callee_decl(t) or ""
+                if callee_matches(t, "Option::filter", "Option::take_if", "Option::is_some_and", "Option::is_none_or"):
+                    suspicious.append(c)
+                if d.startswith("std::cmp::PartialOrd::") or d.startswith("std::cmp::PartialEq::"):
+                    suspicious.append(d)
+                if any(x in d for x in ("min_positive_value", "max_value", "min_value", "epsilon", "Float::classify", "is_normal", "is_subnormal")):
+                    suspicious.append(d)
+            if g is not ep:
+                for b, i, st in g.stmts():
+                    if st["k"] == "assign" and st["rv"]["k"] == "binop" and st["rv"]["op"] in ("Lt", "Le", "Gt", "Ge") and "f" in str(st["rv"].get("lty")):
+                        suspicious.append("float comparison")
+        parses = [t for _, t in ep.calls(reg) if callee_matches(t, "<impl str>::parse")]
+        ctx.inst("C16-real-literal", "eval_primitive/Real-arm", {"parse_calls": len(parses), "value_dependent_rejections": sorted(set(suspicious))})
+        if len(parses) != 1:
+            ctx.report("C16-real-literal", "parse", "real literals are not converted by one str::parse", where_of(ep))
+        if suspicious:
+            ctx.report("C16-real-literal", "rejection", "the conversion of a real literal rejects values by comparison (%s): some finite real that the "
+                       "printer emits (e.g. a subnormal like 5e-39) may not read back" % sorted(set(suspicious)), where_of(ep))
+
     # ------------------------------------------------------------------ C16-dotted
     ctx.rule("C16-dotted", "dotted tail only for improper lists; single spaces between elements")
     dom = pf.dominators()
